@@ -124,7 +124,8 @@ def gen_lens(ch, feats, nsurf=None, harsh=False, max_surf=12):
                     if ch.chance(0.75) else ch.pick([-1, -1.0, 0, 0.0],
                                                     tag='conicpal')
         if kind == 'even_asphere':
-            nc = ch.randint(1, 3, tag='ncoef')
+            nc = ch.randint(1, 3, tag='ncoef') if ch.chance(0.8) else \
+                ch.randint(4, 6, tag='ncoef')    # high orders: tiny values
             if 'int_coeffs' in feats and ch.chance(0.3):
                 op['coefficients'] = [0] * nc
             else:
@@ -230,16 +231,27 @@ def gen_lens(ch, feats, nsurf=None, harsh=False, max_surf=12):
     else:
         ops.append({'op': 'set_field_type', 'type': 'angle'})
         fmax = ch.rounded(ch.uniform(0.5, 8.0 if not harsh else 25.0), 3)
+    ftype_op = ops.pop()        # placed according to the drawn order below
     nf = ch.randint(1, 3, tag='nfields')
     ys = [0.0, fmax, ch.rounded(0.7 * fmax, 3)][:nf]
     if nf == 1 and ch.chance(0.5):
         ys = [fmax]
+    fops = []
     for y in ys:
         fo = {'op': 'add_field', 'y': y}
         if 'vignette' in feats and y != 0.0 and ch.chance(0.7):
             fo['vx'] = ch.rounded(ch.uniform(0.0, 0.3), 3)
             fo['vy'] = ch.rounded(ch.uniform(0.0, 0.3), 3)
-        ops.append(fo)
+        fops.append(fo)
+    order = ch.weighted([('type_first', 6), ('fields_first', 2),
+                         ('switched', 1)], tag='forder')
+    if order == 'type_first':
+        ops += [ftype_op] + fops
+    elif order == 'fields_first':
+        ops += fops + [ftype_op]
+    else:
+        other = 'object_height' if ftype_op['type'] == 'angle' else 'angle'
+        ops += [{'op': 'set_field_type', 'type': other}] + fops + [ftype_op]
     # ---- wavelengths
     nw = ch.randint(2, 3, tag='nwl') if 'multi_wl' in feats else 1
     wls = [0.5875618, 0.4861327, 0.6562725][:nw]
